@@ -207,6 +207,9 @@ func (g *typesGen) newEnum(rank int, name string) tgType {
 		}
 		t.Consts = append(t.Consts, [2]string{fmt.Sprintf("%sV%d", name, k), lit})
 	}
+	if len(t.Consts) > 1 && r.Chance(1, 3) {
+		t.ConstsElsewhere = 1 + r.Intn(len(t.Consts)-1) // declared in another file of the package
+	}
 	return t
 }
 
